@@ -785,6 +785,10 @@ pub enum BoundType {
     End,
 }
 
+#[cfg(pendulum_project_ntpd_rs_verif)]
+#[path = "/verif/hooks/statime_algo_filter.rs"]
+pub mod verif_hook;
+
 #[cfg(all(test, feature = "std"))]
 #[allow(clippy::too_many_lines, reason = "Test code")]
 mod tests {
